@@ -426,8 +426,7 @@ func (c *Conn) Read(p []byte) (int, error) {
 				return n, nil
 			}
 			wait = s.at.Sub(now)
-		} else if h.wclosed && !h.hole {
-			// (a FIN does not cross a blackhole either)
+		} else if h.wclosed {
 			return 0, io.EOF
 		}
 		if !h.rdl.IsZero() {
